@@ -227,11 +227,15 @@ def make_pdb(rng, symbol, no):
         frac = rng.uniform(0, 1, 3)
         if rng.random() < 0.25:
             frac = np.array([float(SPECIAL[int(rng.integers(4))][1]) for _ in range(3)])
-        xyz = A @ (frac - trans) if False else A @ frac
+        if rng.random() < 0.4:
+            frac = frac + rng.integers(-9, 10, 3)       # molecules outside the reference cell: negative / 8-character coordinates
+        xyz = A @ frac
+        if np.any(np.abs(xyz) >= 999.0):
+            xyz = A @ (frac % 1)
         rectype = "ATOM  " if rng.random() < 0.7 else "HETATM"
         name = (" %-3s" % (el.upper() + "ABCD"[int(rng.integers(4))]))[:4] if len(el) == 1 else ("%-4s" % (el.upper() + "12"[int(rng.integers(2))]))[:4]
         occ = float("%.2f" % rng.uniform(0.1, 1.0))
-        B = float("%.2f" % rng.uniform(2, 80))
+        B = float("%.2f" % (rng.uniform(2, 80) if rng.random() < 0.7 else rng.uniform(100, 999.9)))   # 6-character field filled
         line = "%s%5d %4s %3s %s%4d    %8.3f%8.3f%8.3f%6.2f%6.2f          %2s  \n" % (
             rectype, i + 1, name, "LIG", "A", 1 + i // 3, xyz[0], xyz[1], xyz[2], occ, B, el.upper() if rng.random() < 0.7 else el)
         L.append(line)
